@@ -15,6 +15,8 @@ size_t g_j;                 /* witness index into a variable's data bytes       
 size_t g_size;              /* string decoder: number of decoded bytes so far                    */
 size_t g_nesc;              /* string decoder: number of escape sequences decoded so far         */
 size_t g_src;               /* string decoder: text position the witness byte g_j was decoded from */
+size_t g_pfx1; uint8_t g_oldtext1; /* the same pair one call level up (format_* functions, which call the print helpers) */
+size_t g_pfx;                /* formatters: bound below which the existing text must be preserved  */
 uint8_t g_oldtext;          /* value of the witness text byte g_k before the call                */
 uint8_t g_oldbyte;          /* value of the witness data byte g_j before the call                */
 _Bool  g_esc;               /* string decoder: witness byte came from an escape sequence         */
